@@ -214,9 +214,12 @@ def check_cfg(fx, rep, crate, cfg):
                   'after a successfully delivered item the stream entry is removed or its connection re-registered: the stream ends early / the connection is read while streaming')
         ep = [p for p in ps_some if 'err' in p[1]]
         bad = [p for p in ep if 'rm_stream_own' not in p[1]]
-        rep.check(bool(ep) and not bad, 'R10.1c', '%s|failed-item-drops-subscription|%s' % (fk, cfg), C.where(run, some_t),
-                  'a failed item send removes exactly that subscription on every path (%d path states)' % len(ep),
-                  'a failed item send does not remove that subscription from the stream list' if ep else 'no path handling a failed item send found')
+        back = [p for p in ep if 'push_conn' in p[1]]
+        rep.check(bool(ep) and not bad and not back, 'R10.1c', '%s|failed-item-drops-subscription|%s' % (fk, cfg), C.where(run, some_t),
+                  'a failed item send removes exactly that subscription on every path and does not hand the connection back to the call list (%d path states)' % len(ep),
+                  ('after a failed item send the connection is pushed back onto the call list although its stream has not ended: the calls pipelined behind the streaming '
+                   'call are served while the subscription is still owed items (only the end of the stream returns a connection)' if back and not bad else
+                   'a failed item send does not remove that subscription from the stream list') if ep else 'no path handling a failed item send found')
         # R10.2 the item and the writer
         for b, t in sends.items():
             aq = op_place(t['args'][1])
